@@ -38,6 +38,14 @@ func main() {
 		}
 		os.Exit(runCheck(runOpts{prop: prop, tier: *tier, repo: *repo, evidenceDir: *evd,
 			knownFile: *known, seed: seed, noEvidence: *noev, dumpAll: *dump}))
+	case "checkall":
+		// development aid (mutation campaigns): load once, run every property's rules (default config), print the
+		// properties that report a failure not listed as a known finding
+		fs := flag.NewFlagSet("checkall", flag.ExitOnError)
+		repo := fs.String("repo", "/repo", "path of the sipsp working tree")
+		known := fs.String("known", "/verif/known-findings.txt", "known findings file")
+		fs.Parse(os.Args[2:])
+		os.Exit(runCheckAll(*repo, *known))
 	case "errsets":
 		dumpErrSets("/repo")
 	case "fsm":
